@@ -112,3 +112,46 @@ def g2_jac(A, z):
 
 def g1_bytes(A):
     return '04' + h32(A[0]) + h32(A[1])
+
+
+# ---- SM3 and the SM9 hash-to-range functions (independent of the code under test; used only to CRAFT inputs,
+#      e.g. master keys related to an identity by k = +-H1(ID||hid))
+def _rotl(x, n):
+    n %= 32
+    return ((x << n) | (x >> (32 - n))) & 0xffffffff
+
+
+def sm3(msg):
+    iv = [0x7380166f, 0x4914b2b9, 0x172442d7, 0xda8a0600, 0xa96f30bc, 0x163138aa, 0xe38dee4d, 0xb0fb0e4e]
+    ml = len(msg) * 8
+    msg = bytes(msg) + b'\x80'
+    msg += b'\x00' * ((56 - len(msg) % 64) % 64) + ml.to_bytes(8, 'big')
+    v = iv
+    for off in range(0, len(msg), 64):
+        w = [int.from_bytes(msg[off + 4 * i:off + 4 * i + 4], 'big') for i in range(16)]
+        for j in range(16, 68):
+            x = w[j - 16] ^ w[j - 9] ^ _rotl(w[j - 3], 15)
+            w.append((x ^ _rotl(x, 15) ^ _rotl(x, 23)) ^ _rotl(w[j - 13], 7) ^ w[j - 6])
+        w1 = [w[j] ^ w[j + 4] for j in range(64)]
+        a, b, c, d, e, f, g, h = v
+        for j in range(64):
+            t = 0x79cc4519 if j < 16 else 0x7a879d8a
+            ss1 = _rotl((_rotl(a, 12) + e + _rotl(t, j)) & 0xffffffff, 7)
+            ss2 = ss1 ^ _rotl(a, 12)
+            ff = (a ^ b ^ c) if j < 16 else ((a & b) | (a & c) | (b & c))
+            gg = (e ^ f ^ g) if j < 16 else ((e & f) | (~e & 0xffffffff & g))
+            tt1 = (ff + d + ss2 + w1[j]) & 0xffffffff
+            tt2 = (gg + h + ss1 + w[j]) & 0xffffffff
+            d = c; c = _rotl(b, 9); b = a; a = tt1
+            h = g; g = _rotl(f, 19); f = e; e = tt2 ^ _rotl(tt2, 9) ^ _rotl(tt2, 17)
+        v = [x ^ y for x, y in zip(v, [a, b, c, d, e, f, g, h])]
+    return b''.join(x.to_bytes(4, 'big') for x in v)
+
+
+def hash_to_range(prefix, z):
+    ha = sm3(bytes([prefix]) + z + (1).to_bytes(4, 'big')) + sm3(bytes([prefix]) + z + (2).to_bytes(4, 'big'))[:8]
+    return int.from_bytes(ha, 'big') % (N - 1) + 1
+
+
+def H1(idb, hid):
+    return hash_to_range(1, bytes(idb) + bytes([hid]))
